@@ -70,6 +70,7 @@ fn drain_log(path: &PathBuf) -> Vec<Value> {
 }
 
 struct ExtSweep<'a> {
+    idx: usize,
     name: &'a str,
     g: &'a Graph,
     pres: Presentation,
@@ -86,7 +87,8 @@ impl<'a> BuiltVisitor for ExtSweep<'a> {
                 continue; // no SAT call at all (grounded)
             }
             self.acc.queries += 1;
-            let opts = vec![format!("log={}", self.log.display())];
+            // the model is split over `v` lines of 1, 2 or 3 literals and preceded by some comment lines
+            let opts = vec![format!("log={}", self.log.display()), format!("vwidth={}", 1 + (self.idx + self.acc.queries as usize) % 3), format!("pad={}", 64 * ((self.idx + self.acc.queries as usize) % 4))];
             let res = catch(|| run_query(b, q, external_factory(opts)));
             let recs = drain_log(&self.log);
             let case = |extra: Value| {
@@ -149,7 +151,7 @@ pub fn external_sweep(graphs: &[(String, Graph)], tag: &str) -> ExtAcc {
         .map(|(i, (name, g))| {
             let mut acc = ExtAcc::default();
             let ra = RefAnswers::new(g);
-            let mut sw = ExtSweep { name, g, pres: Presentation::Compact, ra: &ra, log: dir.join(format!("{}.log", i)), acc: &mut acc };
+            let mut sw = ExtSweep { idx: i, name, g, pres: Presentation::Compact, ra: &ra, log: dir.join(format!("{}.log", i)), acc: &mut acc };
             with_presentation(g, Presentation::Compact, &mut sw);
             acc
         })
